@@ -15,26 +15,58 @@ package main
 //
 // crypto/rand.Reader is replaced by a seeded stream that is rewound before each step of each of
 // the two runs, so that Discharge mints the same tokens in both.
+//
+// Generator audit (round 18), what the pools now range over:
+//   * worlds: a third come from newCacheWorld — key-ids of 0/1/8/16/300 bytes, issuer locations
+//     with an upper-case host / URL path / trailing slash / the empty location, third-party
+//     locations that differ from each other only in case, a trailing slash, a path + query, or
+//     are empty;
+//   * cache: sizes 1/2/3/5/100/2^20, ttl 1h / 0 / -1s / the largest Duration; 1-8 live bundles;
+//   * headers: besides the old pool, the attenuated and the bad-signature variant of a token WITH
+//     the token's discharges, the token and its attenuated variant sharing the discharges, two
+//     families in one header, the discharges alone, re-presentations with a scheme prefix and
+//     white space (same keys), the same bytes under other labels (other keys), junk in between;
+//     a later bundle re-presents an earlier bundle's header with probability 1/3;
+//   * steps: Attenuate with no caveats / with a caveat a token already carries / with a list Add
+//     refuses (all or nothing) / with a fresh third-party caveat followed by verify, discharge,
+//     verify; a key added to the issuer's key map in mid-history (an earlier failure must not stick);
+//   * inner verifier: consumes its argument map (1/3), scrambles the candidate slices it was handed (1/4);
+//   * timed episodes: also two keys with different expiry times, one hit and one miss in one call;
+//   * extEpisode — operations OUTSIDE the modelled history alphabet (AddTokens, Clone, Select, the
+//     caller overwriting the caveat sets Verify returned, Purge, a cache in front of a cache): judged by
+//     the model-independent oracle alone (`(const transparent)`: cached run against direct run, and
+//     `(const justified)`);
+//   * concEpisode — schedules: 3-6 goroutines, one bundle each, one shared cache; every bundle's own
+//     trace must be what the same steps give sequentially and directly (`(const conc-transparent)`; the
+//     per-bundle traces also go to the model as all-direct histories).
 
 import (
 	"bytes"
 	"context"
 	crand "crypto/rand"
+	"encoding/json"
 	"fmt"
+	"math"
 	"os"
+	"os/exec"
 	"reflect"
 	"sort"
 	"strings"
+	"sync"
 	"time"
 	"unsafe"
 
 	"github.com/superfly/macaroon"
+	"github.com/superfly/macaroon/auth"
 	"github.com/superfly/macaroon/bundle"
 	"github.com/superfly/macaroon/flyio"
 	"github.com/superfly/macaroon/resset"
 )
 
-func init() { families["cache"] = famCache }
+func init() {
+	families["cache"] = famCache
+	families["cache.conc"] = famCacheConc // hidden sub-command: the concurrent episodes, in a process of their own
+}
 
 // "copy" = the repaired semantics (what the theorems of C14 are about); VERIF_CACHE_SEM=share
 // selects the model of the unrepaired code
@@ -96,6 +128,9 @@ type logVerifier struct {
 	// consume: delete what was verified from the map handed in, as the remote verifier of the
 	// machinesapi package does - a Verifier owns its argument, the cache must not rely on it afterwards
 	consume bool
+	// scramble: reverse, in place, every candidate slice after it was used (same reason: the slices
+	// belong to the verifier once they were handed over)
+	scramble bool
 }
 
 func (v *logVerifier) Verify(ctx context.Context, dbp map[bundle.Macaroon][]bundle.Macaroon) map[bundle.Macaroon]bundle.VerificationResult {
@@ -108,6 +143,13 @@ func (v *logVerifier) Verify(ctx context.Context, dbp map[bundle.Macaroon][]bund
 			v.ok[k] = true
 		}
 		ret[perm] = res
+	}
+	if v.scramble {
+		for _, diss := range dbp {
+			for i, j := 0, len(diss)-1; i < j; i, j = i+1, j-1 {
+				diss[i], diss[j] = diss[j], diss[i]
+			}
+		}
 	}
 	if v.consume {
 		for perm, res := range ret {
@@ -156,25 +198,76 @@ func queryKeys(b *bundle.Bundle) []string {
 }
 
 type cStep struct {
-	kind string // verify validate attenuate discharge filter header tick
+	kind string // verify validate attenuate discharge filter header tick rekey | ext: add clone select scribble purge
 	i    int
 	mode string
+	sub  string // attenuate: plain empty dup refused 3p
 	accs []macaroon.Access
 	cavs []macaroon.Caveat
+	tp3  *addItem // attenuate: a fresh third-party caveat, added after cavs
 	tp   tpParty
 	ka   []byte
 	cb   bCb
 	f    bFilter
-	sx   string // the op without the discharge randomness
+	hdr  string // add
+	sx   string // the op without the discharge randomness / the third-party nonce
 	seed uint64
 	nrnd int
 	rnds []string
+	n3p  []byte // VerifierKey nonce of the third-party caveat as it came out (cached run)
+}
+
+type relHdr struct{ h, kind string }
+
+// the same header as a client might re-send it: scheme prefix, white space around the entries —
+// every token text is the same after parsing, so the cache keys are the same
+func decorateHdr(r *Rng, h string) string {
+	parts := strings.Split(h, ",")
+	for i, p := range parts {
+		if r.Chance(1, 2) {
+			parts[i] = pick(r, []string{" ", "  ", "\t", " \t"}) + p + pick(r, []string{"", " ", "\t"})
+		}
+	}
+	h = strings.Join(parts, ",")
+	if !strings.HasPrefix(h, "FlyV1 ") && !strings.HasPrefix(h, "Bearer ") {
+		h = pick(r, []string{"FlyV1 ", "Bearer ", "FlyV1  ", ""}) + h
+	}
+	return h
+}
+
+// the same token bytes under another label: another text, hence another cache key
+func relabelHdr(r *Rng, h string) string {
+	parts := strings.Split(h, ",")
+	for i, p := range parts {
+		pfx, b64, ok := strings.Cut(p, "_")
+		if !ok || (pfx != "fm1r" && pfx != "fm1a" && pfx != "fm2") {
+			continue
+		}
+		others := []string{}
+		for _, l := range []string{"fm2", "fm1r", "fm1a"} {
+			if l != pfx {
+				others = append(others, l)
+			}
+		}
+		parts[i] = pick(r, others) + "_" + b64
+	}
+	return strings.Join(parts, ",")
+}
+
+func shuffled(r *Rng, xs []string) []string {
+	p := append([]string{}, xs...)
+	for i := len(p) - 1; i > 0; i-- {
+		j := r.Intn(i + 1)
+		p[i], p[j] = p[j], p[i]
+	}
+	return p
 }
 
 // related headers around one token family
-func (w *bWorld) relatedHeaders() []string {
+func (w *bWorld) relatedHeaders() []relHdr {
 	r := w.r
-	var hs []string
+	var hs []relHdr
+	add := func(kind, h string) { hs = append(hs, relHdr{h, kind}) }
 	// prefer token families with several discharges (several tickets, or two candidates for one)
 	big := w.fams[0]
 	for _, f := range w.fams {
@@ -188,31 +281,50 @@ func (w *bWorld) relatedHeaders() []string {
 			fam = big
 		}
 		all := strings.Join(fam, ",")
-		hs = append(hs, all, all, fam[0])
+		add("all", all)
+		add("all", all)
+		add("permAlone", fam[0])
 		if len(fam) > 2 {
 			// re-presentations of the same header with the discharges permuted: across tickets the
 			// cache must still hit, within one ticket it must not hand out the other order's result
 			for n := 0; n < 3; n++ {
-				p := append([]string{}, fam[1:]...)
-				for i := len(p) - 1; i > 0; i-- {
-					j := r.Intn(i + 1)
-					p[i], p[j] = p[j], p[i]
-				}
+				p := shuffled(r, fam[1:])
 				if r.Bool() {
-					hs = append(hs, fam[0]+","+strings.Join(p, ","))
+					add("permuted", fam[0]+","+strings.Join(p, ","))
 				} else {
-					hs = append(hs, strings.Join(p, ",")+","+fam[0])
+					add("permuted", strings.Join(p, ",")+","+fam[0])
 				}
 				w.o.count("hdr.permuted")
 			}
 		}
 		if len(fam) > 1 {
-			hs = append(hs, strings.Join(fam[:len(fam)-1], ","))
+			add("minusLast", strings.Join(fam[:len(fam)-1], ","))
+			add("dischargesAlone", strings.Join(fam[1:], ","))
 		}
-		hs = append(hs, all+","+all) // duplicates
+		add("duplicated", all+","+all) // duplicates
+		add("decorated", decorateHdr(r, all))
+		add("relabeled", relabelHdr(r, all))
+		add("junkBetween", strings.Join(append(append(append([]string{}, fam[:1]...),
+			pick(r, []string{"fo1_abc", "hello", "fm2_!!!", "", "fm3_QUJD", "fm2_QUJD="})), fam[1:]...), ","))
+		// variants of the token itself (same nonce, same tickets) presented WITH the family's discharges
+		if raw, ok := rawOfEntry(fam[0]); ok {
+			if m, err := macaroon.Decode(raw); err == nil {
+				if err := m.Add(w.cav()); err == nil {
+					att := b64tok(w.label(), mustEnc(m))
+					add("attenuated+discharges", strings.Join(append([]string{att}, fam[1:]...), ","))
+					add("both+discharges", strings.Join(shuffled(r, append([]string{att}, fam...)), ","))
+				}
+			}
+			if m, err := macaroon.Decode(raw); err == nil && len(m.Tail) > 0 {
+				m.Tail[r.Intn(len(m.Tail))] ^= 1 << uint(r.Intn(8))
+				add("badsig+discharges", strings.Join(append([]string{b64tok(w.label(), mustEnc(m))}, fam[1:]...), ","))
+			}
+		}
+		other := pick(r, w.fams)
+		add("twoFamilies", all+","+strings.Join(other, ","))
 	}
 	for k := 0; k < 2; k++ {
-		hs = append(hs, w.header(1, 5))
+		add("random", w.header(1, 5))
 	}
 	return hs
 }
@@ -304,31 +416,105 @@ func twoCandidates(permLoc string, hdrs []string) bool {
 	return false
 }
 
-func (w *bWorld) cacheEpisode(hookable bool, probe bool) {
+// set by famCache in the thorough tier: one history in ten has 16-40 steps
+var cacheLongHistories bool
+
+// what a header holds, read at generation time: the number of permission tokens (an upper bound for
+// the whole history: nothing turns into a permission token later) and plain caveats they carry
+type hdrInfo struct {
+	nPerm   int
+	carried []macaroon.Caveat
+}
+
+func (w *bWorld) infoOf(h string) hdrInfo {
+	var hi hdrInfo
+	b, _ := bundle.ParseBundle(w.permLoc, h)
+	for _, m := range macsOf(b) {
+		if !b.IsPermissionToken(m) {
+			continue
+		}
+		hi.nPerm++
+		for _, c := range m.UnsafeCaveats().Caveats {
+			switch c.(type) {
+			case *macaroon.Caveat3P, *macaroon.BindToParentToken:
+			default:
+				hi.carried = append(hi.carried, c)
+			}
+		}
+	}
+	return hi
+}
+
+// overwrite the caveat sets a Verify call returned (slice level: replace the first element, then
+// append one).  They are the caller's results; doing so must not reach any other bundle.
+func scribble(cs []*macaroon.CaveatSet) {
+	for _, c := range cs {
+		if c == nil {
+			continue
+		}
+		deny := resset.ActionNone
+		if len(c.Caveats) > 0 {
+			c.Caveats[0] = &deny
+		}
+		c.Caveats = append(c.Caveats, &flyio.Organization{ID: 99, Mask: resset.ActionRead})
+	}
+}
+
+// cacheEpisode: one history, run through the cache and directly.  ext = also operations outside the
+// modelled alphabet (then no model line is emitted, the two `const` oracles judge alone).
+func (w *bWorld) cacheEpisode(hookable bool, probe bool, ext bool) {
 	r, o := w.r, w.o
 	ctx := context.Background()
-	ttlName := pick(r, []string{"1h", "1h", "1h", "1h", "0", "-1s"})
-	ttl, ttlTicks := time.Hour, int64(1_000_000_000)
-	switch ttlName {
-	case "0":
-		ttl, ttlTicks = 0, 0
-	case "-1s":
-		ttl, ttlTicks = -time.Second, -1000
+	pfx := ""
+	if ext {
+		pfx = "ext."
+		o.count("ext.episodes")
 	}
-	size := pick(r, []int{1, 2, 100, 100})
-	o.count("ttl." + ttlName)
-	o.count(fmt.Sprintf("size.%d", size))
+	ttlName := pick(r, []string{"1h", "1h", "1h", "1h", "0", "-1s", "max"})
+	ttlOf := func(name string) (time.Duration, int64) {
+		switch name {
+		case "0":
+			return 0, 0
+		case "-1s":
+			return -time.Second, -1000
+		case "max": // 292 years: the expiry lies beyond what fits into int64 nanoseconds since 1970
+			return time.Duration(math.MaxInt64), int64(1_000_000_000)
+		}
+		return time.Hour, int64(1_000_000_000)
+	}
+	ttl, ttlTicks := ttlOf(ttlName)
+	size := pick(r, []int{1, 2, 100, 100, 3, 5, 1 << 20})
+	o.count(pfx + "ttl." + ttlName)
+	o.count(fmt.Sprintf("%ssize.%d", pfx, size))
 
 	related := w.relatedHeaders()
-	wide := !probe && r.Chance(1, 12)
+	wide := !probe && !ext && r.Chance(1, 12)
 	if wide { // 14-20 candidate discharges for one permission token
-		related = w.wideHeaders()
+		related = nil
+		for _, h := range w.wideHeaders() {
+			related = append(related, relHdr{h, "wide"})
+		}
 		o.count("hist.wide")
 	}
-	nb := 2 + r.Intn(4)
+	nb := pick(r, []int{1, 2, 2, 3, 3, 3, 4, 4, 4, 5, 5, 5})
+	if r.Chance(1, 12) {
+		nb = 6 + r.Intn(3)
+	}
 	hdrs := make([]string, nb)
 	for i := range hdrs {
-		hdrs[i] = pick(r, related)
+		if i > 0 && r.Chance(1, 3) { // an earlier bundle's header again (same keys)
+			hdrs[i] = hdrs[r.Intn(i)]
+			kind := "verbatim"
+			if r.Bool() {
+				hdrs[i] = decorateHdr(r, hdrs[i])
+				kind = "decorated"
+			}
+			o.count(pfx + "hdr.sel.again." + kind)
+			continue
+		}
+		rh := pick(r, related)
+		hdrs[i] = rh.h
+		o.count(pfx + "hdr.sel." + rh.kind)
 	}
 	if probe { // F7: the same accepted token in two bundles, through one long-lived cache
 		ttlName, ttl, ttlTicks, size, nb = "1h", time.Hour, int64(1_000_000_000), 100, 2
@@ -341,14 +527,33 @@ func (w *bWorld) cacheEpisode(hookable bool, probe bool) {
 		hdrs = []string{pe, pe}
 		o.count("probe.f7")
 	}
-	o.count(fmt.Sprintf("bundles.%d", nb))
+	o.count(fmt.Sprintf("%sbundles.%d", pfx, nb))
+	infos := make([]hdrInfo, nb)
+	for i, h := range hdrs {
+		infos[i] = w.infoOf(h)
+	}
 
 	// the history
 	n := 3 + r.Intn(13)
+	if cacheLongHistories && !probe && r.Chance(1, 10) { // thorough tier: long histories
+		n = 16 + r.Intn(25)
+		o.count(pfx + "hist.long")
+	}
 	steps := make([]*cStep, 0, n)
-	for s := 0; s < n; s++ {
+	push := func(st *cStep) {
+		o.count(pfx + "op." + st.kind + st.mode)
+		steps = append(steps, st)
+	}
+	verifyStep := func(i int, mode string) *cStep {
+		return &cStep{kind: "verify", mode: mode, i: i, seed: r.U64(), sx: fmt.Sprintf("(verify %d %s)", i, mode)}
+	}
+	for len(steps) < n {
 		st := &cStep{i: r.Intn(nb), seed: r.U64()}
-		switch k := r.Intn(20); {
+		k := r.Intn(20)
+		if ext && r.Chance(1, 4) {
+			k = 20 + r.Intn(5)
+		}
+		switch {
 		case k < 8:
 			st.kind, st.mode = "verify", "cached"
 			if r.Chance(1, 6) {
@@ -364,16 +569,49 @@ func (w *bWorld) cacheEpisode(hookable bool, probe bool) {
 			}
 			st.sx = fmt.Sprintf("(validate %d%s)", st.i, sx)
 		case k < 14:
-			st.kind = "attenuate"
-			st.cavs = []macaroon.Caveat{w.cav()}
-			if r.Chance(1, 4) {
-				st.cavs = append(st.cavs, w.cav())
+			st.kind, st.sub = "attenuate", "plain"
+			switch q := r.Intn(12); {
+			case q == 0: // no caveats at all: the tokens are re-printed, nothing else
+				st.sub = "empty"
+			case q == 1 && len(infos[st.i].carried) > 0: // a caveat a token of this bundle carries already
+				st.sub = "dup"
+				st.cavs = []macaroon.Caveat{pick(r, infos[st.i].carried)}
+				if r.Bool() {
+					st.cavs = append(st.cavs, w.cav())
+				}
+			case q == 2: // a list Add refuses (attestation on a token that is no proof): nothing may change
+				st.sub = "refused"
+				a := auth.FlyioUserID(3)
+				st.cavs = []macaroon.Caveat{w.cav(), &a}
+				if r.Bool() {
+					st.cavs[0], st.cavs[1] = st.cavs[1], st.cavs[0]
+				}
+			case q == 3 && hookable && infos[st.i].nPerm <= 1: // a fresh third-party caveat (its nonce is drawn per token)
+				st.sub = "3p"
+				p := pick(r, w.tps)
+				it, err := newTP(p.ka, p.loc)
+				if err != nil {
+					panic(err)
+				}
+				st.tp3, st.tp = &it, p
+				if r.Bool() {
+					st.cavs = []macaroon.Caveat{w.cav()}
+				}
+			default:
+				st.cavs = []macaroon.Caveat{w.cav()}
+				if r.Chance(1, 4) {
+					st.cavs = append(st.cavs, w.cav())
+					if r.Chance(1, 2) {
+						st.cavs = append(st.cavs, w.cav())
+					}
+				}
 			}
+			o.count(pfx + "attenuate." + st.sub)
 			items := make([]string, len(st.cavs))
 			for j, c := range st.cavs {
-				items[j] = "(c " + sxCav(c) + ")"
+				items[j] = " (c " + sxCav(c) + ")"
 			}
-			st.sx = fmt.Sprintf("(attenuate %d %s)", st.i, strings.Join(items, " "))
+			st.sx = fmt.Sprintf("(attenuate %d%s", st.i, strings.Join(items, "")) // closed when the step has run
 		case k < 15 && hookable:
 			st.kind = "discharge"
 			st.tp = pick(r, w.tps)
@@ -387,12 +625,63 @@ func (w *bWorld) cacheEpisode(hookable bool, probe bool) {
 		case k < 19:
 			st.kind = "header"
 			st.sx = fmt.Sprintf("(header %d)", st.i)
-		default:
+		case k < 20:
 			st.kind = "tick"
 			st.sx = "tick"
+		// ---- outside the modelled alphabet (ext only); the bundle index is taken modulo the live bundles ----
+		case k == 20:
+			st.kind = "add"
+			st.i = r.Intn(64)
+			fam := pick(r, w.fams)
+			switch r.Intn(3) {
+			case 0:
+				st.hdr = strings.Join(fam[1:], ",") // the discharges of a family (possibly none)
+			case 1:
+				st.hdr = pick(r, fam)
+			default:
+				st.hdr = w.header(1, 2)
+			}
+		case k == 21:
+			st.kind = "clone"
+			st.i = r.Intn(64)
+		case k == 22:
+			st.kind = "select"
+			st.i = r.Intn(64)
+			st.f = w.genFilter(1)
+		case k == 23:
+			st.kind = "scribble"
+		default:
+			st.kind = "purge"
 		}
-		o.count("op." + st.kind + st.mode)
-		steps = append(steps, st)
+		push(st)
+		if st.sub == "3p" && r.Bool() { // the interesting continuation: must fail, discharge, must verify
+			push(verifyStep(st.i, "cached"))
+			cb := w.genCb()
+			push(&cStep{kind: "discharge", i: st.i, seed: r.U64(), tp: st.tp, ka: st.tp.ka, cb: cb,
+				sx: fmt.Sprintf("(discharge %d %s %s %s", st.i, hs(st.tp.loc), hx(st.tp.ka), cb.sx)})
+			push(verifyStep(st.i, "cached"))
+		}
+	}
+	if ext && r.Bool() {
+		// what Verify returned belongs to the caller.  X := Clone(b0); verify b0 and X through the cache
+		// (X hits what b0 left); the caller overwrites X's sets; a fresh clone Y verifies (must get what
+		// direct verification gives); the caller overwrites b0's sets — the ones the entry was made
+		// from; a fresh clone Z verifies.  (index -1 = the bundle created last)
+		o.count("ext.scribbleProbe")
+		for _, t := range []struct {
+			kind string
+			i    int
+		}{{"clone", 0}, {"verify", 0}, {"verify", -1}, {"scribble", -1}, {"clone", 0}, {"verify", -1}, {"validate", -1},
+			{"scribble", 0}, {"clone", 0}, {"verify", -1}, {"validate", -1}} {
+			st := &cStep{kind: t.kind, i: t.i, seed: r.U64()}
+			switch t.kind {
+			case "verify":
+				st.mode = "cached"
+			case "validate":
+				st.accs, _ = w.reqs()
+			}
+			push(st)
+		}
 	}
 	if probe {
 		ro := resset.ActionRead
@@ -400,36 +689,80 @@ func (w *bWorld) cacheEpisode(hookable bool, probe bool) {
 		steps = []*cStep{
 			{kind: "verify", mode: "cached", i: 0, sx: "(verify 0 cached)"},
 			{kind: "verify", mode: "cached", i: 1, sx: "(verify 1 cached)"},
-			{kind: "attenuate", i: 0, cavs: []macaroon.Caveat{&ro}, sx: "(attenuate 0 (c " + sxCav(&ro) + "))"},
+			{kind: "attenuate", sub: "plain", i: 0, cavs: []macaroon.Caveat{&ro}, sx: "(attenuate 0 (c " + sxCav(&ro) + ")"},
 			{kind: "header", i: 1, sx: "(header 1)"},
 			{kind: "validate", i: 1, accs: acc, sx: "(validate 1 " + sx + ")"},
 		}
 	}
 
+	// a key of the issuer that is only added in mid-history: what failed before must verify from then
+	// on, through the cache as well (a failure is never remembered)
+	keysSx0 := w.sxKeys()
+	var lateKid []byte
+	var lateKey macaroon.SigningKey
+	if !probe && r.Chance(1, 8) {
+		lateKid = pick(r, w.kids)
+		lateKey = w.keys[string(lateKid)]
+		full := w.sxKeys()
+		delete(w.keys, string(lateKid))
+		keysSx0 = w.sxKeys()
+		defer func() { w.keys[string(lateKid)] = lateKey }()
+		at := r.Intn(len(steps) + 1)
+		st := &cStep{kind: "rekey", sx: "(rekey " + full + ")", seed: r.U64()}
+		steps = append(steps[:at], append([]*cStep{st}, steps[at:]...)...)
+		o.count(pfx + "op.rekey.keyAdded")
+	}
+
 	type world struct {
 		bs     []*bundle.Bundle
 		cached bool
+		last   map[*bundle.Bundle][]*macaroon.CaveatSet // what the last Verify of a bundle returned
 	}
 	mk := func(cached bool) *world {
-		wd := &world{cached: cached}
+		wd := &world{cached: cached, last: map[*bundle.Bundle][]*macaroon.CaveatSet{}}
 		for _, h := range hdrs {
 			b, _ := bundle.ParseBundle(w.permLoc, h)
 			wd.bs = append(wd.bs, b)
 		}
 		return wd
 	}
-	inner := &logVerifier{kr: w.resolver(), ok: map[string]bool{}, consume: w.r.Chance(1, 3)}
+	inner := &logVerifier{kr: w.resolver(), ok: map[string]bool{}, consume: w.r.Chance(1, 3), scramble: w.r.Chance(1, 4)}
 	if inner.consume {
-		w.o.count("inner.consumesItsArgument")
+		w.o.count(pfx + "inner.consumesItsArgument")
+	}
+	if inner.scramble {
+		w.o.count(pfx + "inner.scramblesTheCandidates")
 	}
 	vc := bundle.NewVerificationCache(inner, ttl, size)
+	caches := []*bundle.VerificationCache{vc}
+	if ext && r.Chance(1, 4) { // a cache in front of a cache
+		ttl2name := pick(r, []string{"1h", "0", "max"})
+		ttl2, ticks2 := ttlOf(ttl2name)
+		if ticks2 > ttlTicks {
+			ttlTicks = ticks2
+		}
+		vc2 := bundle.NewVerificationCache(inner, ttl2, pick(r, []int{1, 2, 100}))
+		vc = bundle.NewVerificationCache(vc2, ttl, size)
+		caches = []*bundle.VerificationCache{vc, vc2}
+		o.count("ext.cacheInFrontOfCache.innerTtl." + ttl2name)
+	}
+	liveKeys := func() []string {
+		var ks []string
+		for _, c := range caches {
+			ks = append(ks, lruKeys(c)...)
+		}
+		return ks
+	}
 	mirror := map[string]bool{}   // keys the model's store holds
 	successAt := map[string]int{} // key -> step of the last accepted inner call (or insertion)
 	var justify []string
 
 	// one step on one world; returns the output token
 	apply := func(wd *world, st *cStep, stepNo int) (string, []string) {
-		b := wd.bs[st.i]
+		b := wd.bs[len(wd.bs)-1]
+		if st.i >= 0 {
+			b = wd.bs[st.i%len(wd.bs)]
+		}
 		extra := ""
 		var evicts []string
 		var out string
@@ -440,6 +773,7 @@ func (w *bWorld) cacheEpisode(hookable bool, probe bool) {
 				want := queryKeys(b)
 				inner.calls, inner.ok = nil, map[string]bool{}
 				cs, err := b.Verify(ctx, vc)
+				wd.last[b] = cs
 				out = setsStr(cs, err)
 				extra = fmt.Sprintf("~calls=%d", len(inner.calls))
 				// every skipped query must be justified
@@ -451,18 +785,18 @@ func (w *bWorld) cacheEpisode(hookable bool, probe bool) {
 					if called[k] {
 						continue
 					}
-					o.count("cache.hit")
+					o.count(pfx + "cache.hit")
 					if twoCandKeys[k] {
-						o.count("cache.hit.twoCandidatesForOneTicket")
+						o.count(pfx + "cache.hit.twoCandidatesForOneTicket")
 					}
 					if at, ok := successAt[k]; !ok || !(ttlTicks > 0) || !mirror[k] {
 						justify = append(justify, fmt.Sprintf("unjustified:step%d:prev%d", stepNo, at))
 					}
 				}
 				for _, k := range inner.calls {
-					o.count("cache.miss")
+					o.count(pfx + "cache.miss")
 					if twoCandKeys[k] {
-						o.count("cache.miss.twoCandidatesForOneTicket")
+						o.count(pfx + "cache.miss.twoCandidatesForOneTicket")
 					}
 					if inner.ok[k] {
 						mirror[k] = true
@@ -470,7 +804,7 @@ func (w *bWorld) cacheEpisode(hookable bool, probe bool) {
 					}
 				}
 				actual := map[string]bool{}
-				for _, k := range lruKeys(vc) {
+				for _, k := range liveKeys() {
 					actual[k] = true
 					if !mirror[k] {
 						justify = append(justify, "lru-holds-unknown-key")
@@ -486,16 +820,40 @@ func (w *bWorld) cacheEpisode(hookable bool, probe bool) {
 				for _, k := range gone {
 					delete(mirror, k)
 					evicts = append(evicts, hash8(k))
-					o.count("cache.evict")
+					o.count(pfx + "cache.evict")
 				}
 			} else {
 				cs, err := b.Verify(ctx, w.resolver())
+				wd.last[b] = cs
 				out = setsStr(cs, err)
 			}
 		case "validate":
 			out = flagStr(b.Validate(st.accs...))
 		case "attenuate":
-			out = flagStr(b.Attenuate(st.cavs...))
+			cavs := st.cavs
+			if st.tp3 != nil {
+				cavs = append(append([]macaroon.Caveat{}, cavs...), st.tp3.cav)
+			}
+			err := b.Attenuate(cavs...)
+			out = flagStr(err)
+			if st.tp3 != nil && wd.cached {
+				st.n3p = make([]byte, 12)
+				if err == nil {
+					for _, m := range macsOf(b) {
+						if !b.IsPermissionToken(m) {
+							continue
+						}
+						for _, c := range m.UnsafeCaveats().Caveats {
+							if c3, ok := c.(*macaroon.Caveat3P); ok && string(c3.Ticket) == string(st.tp3.tp.ticket) && len(c3.VerifierKey) >= 12 {
+								st.n3p = c3.VerifierKey[:12]
+							}
+						}
+					}
+				}
+			}
+			if wd.cached {
+				o.count(pfx + "attenuate." + st.sub + "." + out)
+			}
 		case "discharge":
 			before := b.Len()
 			err := b.Discharge(st.tp.loc, st.ka, st.cb.f)
@@ -511,6 +869,30 @@ func (w *bWorld) cacheEpisode(hookable bool, probe bool) {
 			out = "-"
 		case "header":
 			out = hs(b.Header())
+		case "rekey":
+			w.keys[string(lateKid)] = lateKey
+			out = "-"
+		case "add":
+			out = flagStr(b.AddTokens(st.hdr))
+		case "clone":
+			wd.bs = append(wd.bs, b.Clone())
+			out = "-"
+		case "select":
+			wd.bs = append(wd.bs, b.Select(st.f.mk(b)))
+			out = "-"
+		case "scribble":
+			scribble(wd.last[b])
+			out = "-"
+		case "purge":
+			if wd.cached {
+				for _, c := range caches {
+					c.Purge()
+				}
+				for k := range mirror {
+					delete(mirror, k)
+				}
+			}
+			out = "-"
 		default:
 			out = "-"
 		}
@@ -525,9 +907,15 @@ func (w *bWorld) cacheEpisode(hookable bool, probe bool) {
 			oc, evicts := apply(wc, st, sn)
 			od, _ := apply(wd, st, sn)
 			sx := st.sx
-			if st.kind == "discharge" {
+			switch st.kind {
+			case "discharge":
 				if len(st.rnds) > 0 {
 					sx += " " + strings.Join(st.rnds, " ")
+				}
+				sx += ")"
+			case "attenuate":
+				if st.tp3 != nil {
+					sx += fmt.Sprintf(" (new3p %s %s %s %s)", hs(st.tp3.tp.loc), hx(st.tp3.tp.ticket), hx(st.tp3.tp.rn), hx(st.n3p))
 				}
 				sx += ")"
 			}
@@ -546,23 +934,33 @@ func (w *bWorld) cacheEpisode(hookable bool, probe bool) {
 		for i, h := range hdrs {
 			hx[i] = hs(h)
 		}
-		op := fmt.Sprintf("(cache.run (sem %s) (order %s) (scope %s) %s %s %s (ttl %d) (hdrs %s) %s)", cacheSem, cacheOrder, bundleScope, w.sxKeys(), sxTrust(w.trusted),
+		op := fmt.Sprintf("(cache.run (sem %s) (order %s) (scope %s) %s %s %s (ttl %d) (hdrs %s) %s)", cacheSem, cacheOrder, bundleScope, keysSx0, sxTrust(w.trusted),
 			hs(w.permLoc), ttlTicks, strings.Join(hx, " "), strings.Join(opsSx, " "))
 		c, d := strings.Join(outC, " | "), strings.Join(outD, " | ")
 		verdict := "transparent"
 		if twoCandidates(w.permLoc, hdrs) {
-			o.count("hist.twoCandidates")
+			o.count(pfx + "hist.twoCandidates")
 		}
 		if stripCalls(c) == d {
-			o.count("go.transparent")
+			o.count(pfx + "go.transparent")
 		} else if twoCandidates(w.permLoc, hdrs) {
-			o.count("go.NOT-transparent.candidate-order")
+			o.count(pfx + "go.NOT-transparent.candidate-order")
 			verdict = "not-transparent:candidate-order"
 		} else {
-			o.count("go.NOT-transparent.other")
+			o.count(pfx + "go.NOT-transparent.other")
 			verdict = "not-transparent"
 		}
-		o.emit(op, c+" # "+d)
+		if ext {
+			// outside the modelled alphabet: the implementation's own verdict is the oracle
+			if verdict != "transparent" && os.Getenv("VERIF_CACHE_DEBUG") != "" {
+				fmt.Fprintf(os.Stderr, "ext episode not transparent:\n  cached: %s\n  direct: %s\n", stripCalls(c), d)
+				for sn, st := range steps {
+					fmt.Fprintf(os.Stderr, "  step %d: %s %s i=%d %s\n", sn, st.kind, st.mode, st.i, st.sx)
+				}
+			}
+		} else {
+			o.emit(op, c+" # "+d)
+		}
 		// the implementation's own verdict on this history: cached run against direct run
 		o.emit("(const transparent)", verdict)
 		return ""
@@ -586,7 +984,11 @@ func (w *bWorld) cacheEpisode(hookable bool, probe bool) {
 // right before each call).  An episode in which any call comes within 60 ms of an expiry boundary, or
 // in which a call itself takes more than 30 ms, is dropped and counted: no emitted line depends on a
 // race with the clock.  Returns false when dropped.
-func (w *bWorld) timedEpisode(four, rekey bool) bool {
+//
+// twoKeys: two different tokens P and Q, bundles [P], [Q], [P,Q]; P is cached at 0 (until 300), Q at
+// 200 (until 500); at 400 the bundle holding both must get Q from the cache and P from the inner
+// verifier (one call), at 600 the other way round: every entry has its OWN expiry.
+func (w *bWorld) timedEpisode(four, rekey, twoKeys bool) bool {
 	r, o := w.r, w.o
 	ctx := context.Background()
 	const ttlMs = 300
@@ -598,6 +1000,18 @@ func (w *bWorld) timedEpisode(four, rekey bool) bool {
 	pm.Add(&flyio.Organization{ID: 1, Mask: resset.ActionAll})
 	pe := b64tok("fm2", mustEnc(pm))
 	hdrs := []string{pe, pe}
+	which := []int{0, 1, 0, 1}
+	if twoKeys {
+		rekey = false // a retired key would (rightly) leave the live entry of Q usable: not a transparency matter
+		qm, err := macaroon.New(kid, w.permLoc, w.keys[string(kid)])
+		if err != nil {
+			panic(err)
+		}
+		qm.Add(&flyio.Organization{ID: 1, Mask: resset.ActionRead})
+		qe := b64tok("fm2", mustEnc(qm))
+		hdrs = []string{pe, qe, pick(r, []string{pe + "," + qe, qe + "," + pe})}
+		which = []int{0, 1, 2, 2}
+	}
 	targets := []int64{0, 200, 400}
 	if four {
 		targets = append(targets, 600)
@@ -659,7 +1073,7 @@ func (w *bWorld) timedEpisode(four, rekey bool) bool {
 		if dt := target - ms(); dt > 0 {
 			time.Sleep(time.Duration(dt) * time.Millisecond)
 		}
-		i := k % 2
+		i := which[k]
 		now := ms()
 		inner.calls, inner.ok = nil, map[string]bool{}
 		cs, err := wc.bs[i].Verify(ctx, vc)
@@ -687,7 +1101,7 @@ func (w *bWorld) timedEpisode(four, rekey bool) bool {
 		o.count("timed.dropped")
 		return false
 	}
-	o.count(fmt.Sprintf("timed.calls%d.rekey%v", len(targets), rekey))
+	o.count(fmt.Sprintf("timed.calls%d.rekey%v.twoKeys%v", len(targets), rekey, twoKeys))
 	hxs := make([]string, len(hdrs))
 	for i, h := range hdrs {
 		hxs[i] = hs(h)
@@ -844,6 +1258,236 @@ func stripCalls(s string) string {
 	return strings.Join(parts, " | ")
 }
 
+// concEpisode: schedules.  3-6 goroutines, each with a bundle of its own, all verifying through ONE
+// cache; every goroutine runs its own list of steps (cached verify / validate / plain attenuation /
+// header / filter) on its own bundle.  Bundles share nothing and the cache is transparent, so the
+// trace of every bundle must be what the same steps give when run alone, sequentially, with direct
+// verification — whatever the interleaving.  Oracle lines: `(const conc-transparent)`, and per
+// bundle the trace next to the direct one as an all-direct history for the model.
+func (w *bWorld) concEpisode() {
+	r, o := w.r, w.o
+	ctx := context.Background()
+	related := w.relatedHeaders()
+	nb := 3 + r.Intn(4)
+	hdrs := make([]string, nb)
+	for i := range hdrs {
+		if i > 0 && r.Chance(1, 2) { // contention on the same keys
+			hdrs[i] = hdrs[r.Intn(i)]
+		} else {
+			hdrs[i] = pick(r, related).h
+		}
+	}
+	ttlName := pick(r, []string{"1h", "1h", "0", "max"})
+	ttl := map[string]time.Duration{"1h": time.Hour, "0": 0, "max": time.Duration(math.MaxInt64)}[ttlName]
+	size := pick(r, []int{1, 2, 100})
+	o.count("conc.ttl." + ttlName)
+	o.count(fmt.Sprintf("conc.size.%d", size))
+	o.count(fmt.Sprintf("conc.bundles.%d", nb))
+	plans := make([][]*cStep, nb)
+	for i := range plans {
+		for s, n := 0, 4+r.Intn(7); s < n; s++ {
+			st := &cStep{}
+			switch k := r.Intn(10); {
+			case k < 4:
+				st.kind, st.sx = "verify", "(verify 0 direct)"
+			case k < 6:
+				st.kind = "validate"
+				var sx string
+				st.accs, sx = w.reqs()
+				if sx != "" {
+					sx = " " + sx
+				}
+				st.sx = "(validate 0" + sx + ")"
+			case k < 8:
+				st.kind = "attenuate"
+				st.cavs = []macaroon.Caveat{w.cav()}
+				st.sx = "(attenuate 0 (c " + sxCav(st.cavs[0]) + "))"
+			case k < 9:
+				st.kind, st.sx = "header", "(header 0)"
+			default:
+				st.kind = "filter"
+				st.f = w.genFilter(1)
+				st.sx = "(filter 0 " + st.f.sx + ")"
+			}
+			o.count("conc.op." + st.kind)
+			plans[i] = append(plans[i], st)
+		}
+	}
+	runOne := func(h string, plan []*cStep, v bundle.Verifier, rounds int) (tr []string) {
+		defer func() {
+			if p := recover(); p != nil {
+				tr = append(tr, "panic:"+strings.ReplaceAll(strings.SplitN(fmt.Sprint(p), "\n", 2)[0], " ", "_"))
+			}
+		}()
+		b, _ := bundle.ParseBundle(w.permLoc, h)
+		one := []*bundle.Bundle{b}
+		for _, st := range plan {
+			var out string
+			switch st.kind {
+			case "verify":
+				cs, err := b.Verify(ctx, v)
+				out = setsStr(cs, err)
+				for k := 1; k < rounds; k++ { // more pressure on the cache: the answer must not change
+					cs, err := b.Verify(ctx, v)
+					if s := setsStr(cs, err); s != out {
+						out = "unstable(" + out + "/" + s + ")"
+					}
+				}
+			case "validate":
+				out = flagStr(b.Validate(st.accs...))
+			case "attenuate":
+				out = flagStr(b.Attenuate(st.cavs...))
+			case "header":
+				out = hs(b.Header())
+			default:
+				b.Filter(st.f.mk(b))
+				out = "-"
+			}
+			tr = append(tr, out+"~"+statesStr(one))
+		}
+		return tr
+	}
+	vc := bundle.NewVerificationCache(w.resolver(), ttl, size)
+	conc := make([][]string, nb)
+	var wg sync.WaitGroup
+	start := make(chan struct{})
+	for i := 0; i < nb; i++ {
+		wg.Add(1)
+		go func(i int) {
+			defer wg.Done()
+			<-start
+			conc[i] = runOne(hdrs[i], plans[i], vc, 3)
+		}(i)
+	}
+	close(start)
+	wg.Wait()
+	verdict := "conc-transparent"
+	for i := 0; i < nb; i++ {
+		direct := runOne(hdrs[i], plans[i], w.resolver(), 1)
+		c, d := strings.Join(conc[i], " | "), strings.Join(direct, " | ")
+		if c != d && verdict == "conc-transparent" {
+			verdict = fmt.Sprintf("not-transparent:concurrent:bundle%d", i)
+		}
+		ops := make([]string, len(plans[i]))
+		for k, st := range plans[i] {
+			ops[k] = fmt.Sprintf("(%d %s)", k+1, st.sx)
+		}
+		o.emit(fmt.Sprintf("(cache.run (sem %s) (order %s) (scope %s) %s %s %s (ttl %d) (hdrs %s) %s)", cacheSem, cacheOrder, bundleScope, w.sxKeys(),
+			sxTrust(w.trusted), hs(w.permLoc), int64(1_000_000_000), hs(hdrs[i]), strings.Join(ops, " ")), c+" # "+d)
+	}
+	if verdict == "conc-transparent" {
+		o.count("conc.go.transparent")
+	} else {
+		o.count("conc.go.NOT-transparent")
+	}
+	o.emit("(const conc-transparent)", verdict)
+}
+
+func famCacheConc(r *Rng, o *Out, tier string) {
+	n := 10
+	if tier == "thorough" {
+		n = 120
+	}
+	for e := 0; e < n; e++ {
+		var w *bWorld
+		for w == nil || len(w.perms) == 0 {
+			if e%3 == 2 {
+				w = newCacheWorld(r, o)
+			} else {
+				w = newBWorld(r, o)
+			}
+		}
+		w.concEpisode()
+	}
+}
+
+func runConcChild(r *Rng, o *Out, tier string) {
+	dir, err := os.MkdirTemp("", "cacheconc")
+	if err != nil {
+		panic(err)
+	}
+	defer os.RemoveAll(dir)
+	ctx, cancel := context.WithTimeout(context.Background(), 10*time.Minute)
+	defer cancel()
+	cmd := exec.CommandContext(ctx, os.Args[0], "cache.conc", "-seed", fmt.Sprint(r.U64()), "-tier", tier, "-out", dir)
+	var stderr bytes.Buffer
+	cmd.Stderr = &stderr
+	if err := cmd.Run(); err != nil {
+		msg := "hang"
+		if ctx.Err() == nil {
+			msg = strings.SplitN(strings.TrimSpace(stderr.String()), "\n", 2)[0]
+		}
+		o.count("conc.child.crashed")
+		o.emit("(const conc-transparent)", "crashed:"+strings.ReplaceAll(msg, " ", "_"))
+		return
+	}
+	ops, err1 := os.ReadFile(dir + "/ops.txt")
+	impl, err2 := os.ReadFile(dir + "/impl.txt")
+	meta, err3 := os.ReadFile(dir + "/meta.json")
+	if err1 != nil || err2 != nil || err3 != nil {
+		o.emit("(const conc-transparent)", "crashed:no-output")
+		return
+	}
+	ol, il := strings.Split(strings.TrimRight(string(ops), "\n"), "\n"), strings.Split(strings.TrimRight(string(impl), "\n"), "\n")
+	for i := range ol {
+		if i < len(il) && ol[i] != "" {
+			o.emit(ol[i], il[i])
+		}
+	}
+	var m struct {
+		Stats map[string]int `json:"stats"`
+	}
+	if json.Unmarshal(meta, &m) == nil {
+		for k, v := range m.Stats {
+			if strings.HasPrefix(k, "conc.") {
+				o.stats[k] += v
+			}
+		}
+	}
+}
+
+// newCacheWorld: a world like newBWorld's with wider value pools — key-ids of 0 / 1 / 8 / 16 / 300
+// bytes (distinct), issuer locations with an upper-case host, a URL path, a trailing slash, or empty,
+// third-party locations that differ only in letter case / a trailing slash / a path and query, or
+// are empty.  Nothing in the cache looks at any of these; that is what is being checked.
+func newCacheWorld(r *Rng, o *Out) *bWorld {
+	w := &bWorld{r: r, o: o, keys: map[string]macaroon.SigningKey{}, trusted: map[string][]macaroon.EncryptionKey{}}
+	w.permLoc = pick(r, []string{flyio.LocationPermission, "https://perm.example", "https://Perm.Example/v1/", "https://perm.example/", "", "root,a b"})
+	o.count("world.permLoc." + map[bool]string{true: "empty", false: "nonempty"}[w.permLoc == ""])
+	nk := 1 + r.Intn(3)
+	for len(w.kids) < nk {
+		kid := r.Bytes(pick(r, []int{0, 1, 8, 16, 300}))
+		if _, dup := w.keys[string(kid)]; dup {
+			continue
+		}
+		w.kids = append(w.kids, kid)
+		w.keys[string(kid)] = r.Bytes(32)
+		o.count(fmt.Sprintf("world.kidLen.%d", len(kid)))
+	}
+	o.count(fmt.Sprintf("kids.%d", nk))
+	ntp := 1 + r.Intn(3)
+	locs := shuffled(r, []string{"https://auth.example", "https://auth.example/", "https://AUTH.example", "https://auth.example/v1/discharge?x=1&y=2",
+		"https://other.example", "tp3", ""})
+	for _, l := range locs {
+		if len(w.tps) == ntp {
+			break
+		}
+		if l == w.permLoc {
+			continue
+		}
+		p := tpParty{l, r.Bytes(32)}
+		w.tps = append(w.tps, p)
+		if r.Chance(2, 3) {
+			w.trusted[p.loc] = append(w.trusted[p.loc], p.ka)
+		}
+		o.count("world.tpLoc." + map[bool]string{true: "empty", false: "nonempty"}[l == ""])
+	}
+	o.count(fmt.Sprintf("tps.%d", len(w.tps)))
+	o.count("world.wide")
+	w.buildPool()
+	return w
+}
+
 func famCache(r *Rng, o *Out, tier string) {
 	old := crand.Reader
 	defer func() { crand.Reader = old }()
@@ -855,15 +1499,25 @@ func famCache(r *Rng, o *Out, tier string) {
 	n := 120
 	if tier == "thorough" {
 		n = 2000
+		cacheLongHistories = true
+	}
+	mkWorld := func(e int) *bWorld {
+		if e%3 == 2 {
+			return newCacheWorld(r, o)
+		}
+		return newBWorld(r, o)
 	}
 	for e := 0; e < n; e++ {
 		crand.Reader = old
-		w := newBWorld(r, o)
+		w := mkWorld(e)
 		for len(w.perms) == 0 {
-			w = newBWorld(r, o)
+			w = mkWorld(e)
 		}
 		for k := 0; k < 3; k++ {
-			w.cacheEpisode(hookable, e == 0 && k == 0)
+			w.cacheEpisode(hookable, e == 0 && k == 0, false)
+		}
+		if e%2 == 1 { // operations outside the modelled alphabet: the implementation's own verdict only
+			w.cacheEpisode(hookable, false, true)
 		}
 	}
 	// same-nonce variants missing together in one call: which entry survives a key collision would
@@ -876,15 +1530,19 @@ func famCache(r *Rng, o *Out, tier string) {
 	for e := 0; e < sn; e++ {
 		newBWorld(r, o).sameNonceEpisode()
 	}
+	// schedules: in a child process, so that a fatal runtime error (concurrent map writes, a deadlock)
+	// becomes an observable of this run instead of ending it
+	crand.Reader = old
+	runConcChild(r, o, tier)
 	// a few episodes in real time (about half a second each)
 	crand.Reader = old
-	timed := 3
+	timed := 4
 	if tier == "thorough" {
-		timed = 10
+		timed = 12
 	}
 	for e, tries := 0, 0; e < timed && tries < 2*timed; tries++ {
 		w := newBWorld(r, o)
-		if w.timedEpisode(e%3 != 0, e%2 == 1) {
+		if w.timedEpisode(e%3 != 0 || e%4 == 3, e%2 == 1, e%4 == 3) {
 			e++
 		}
 	}
